@@ -128,13 +128,19 @@ class AFMWriter(ModelToText):
             data = data.value.upper()
 
         if node.left and node.right:
-            result = self.recursive_constraint_read(
-                node.left) + data + self.recursive_constraint_read(node.right)
+            result = self.read_operand(node.left) + data + self.read_operand(node.right)
         elif not node.left and node.right:
-            result = data + self.recursive_constraint_read(node.right)
+            result = data + self.read_operand(node.right)
         elif node.left and not node.right:
-            result = data + self.recursive_constraint_read(node.left)
+            result = data + self.read_operand(node.left)
         else:
             result = " " + data + " "
 
+        return result
+
+    def read_operand(self, node: Node) -> str:
+        """An operand that is itself an operation is written in parentheses."""
+        result = self.recursive_constraint_read(node)
+        if node.is_op():
+            result = " (" + result.strip() + ") "
         return result
